@@ -10,6 +10,14 @@ Definition st_of (V : gmap name val) : state := mk_state V ∅ ∅ ∅.
 Definition avail (g : graph) (V : gmap name val) (n : node) : Prop :=
   forallb (has_input g (st_of V) n) (n_inputs n) = true.
 
+Lemma collect_keys g s pv n ps ins : collect_inputs g s pv n ps = Some ins -> map fst ins = ps.
+Proof.
+  revert ins. induction ps as [|q ps IH]; intros ins H; simpl in *; [injection H as <-; reflexivity|].
+  destruct (resolve g s pv n q) as [v|]; [|discriminate].
+  destruct (collect_inputs g s pv n ps) as [rest|]; [|discriminate]. injection H as <-.
+  simpl. rewrite (IH rest eq_refl). reflexivity.
+Qed.
+
 Section C01.
   Variable exec : node -> state -> dict val -> outcome.
   Variable g : graph.
@@ -29,7 +37,7 @@ Section C01.
 
   (* ---- hypotheses: what "acyclic, gate-free, well-formed" means ---- *)
   Record WF : Prop := {
-    wf_kinds : forall n, In n (g_nodes g) -> n_kind n = KFunc /\ n_wait n = [];
+    wf_kinds : forall n, In n (g_nodes g) -> (n_kind n = KFunc \/ n_kind n = KGraph) /\ n_wait n = [];   (* no gates, no interrupts, no wait_for *)
     wf_active : g_active g = None;
     wf_names : List.NoDup (map n_name (g_nodes g));
     wf_unique : List.NoDup all_outputs;
@@ -37,10 +45,10 @@ Section C01.
                 In p (n_inputs n) -> In p (n_outputs m) -> rank (n_name m) < rank (n_name n);
     wf_pv : forall x, dmem pv x = true -> ~ In x all_outputs;
     wf_defs : forall n p, In n (g_nodes g) -> pos_in p (n_hasdef n) = dmem (n_defval n) p;
-    wf_pure : forall n s1 s2 ins, exec n s1 ins = exec n s2 ins;
-    wf_outs : forall n s ins outs dec, In n (g_nodes g) -> exec n s ins = OOk outs dec ->
+    wf_pure : forall n s1 s2 ins, In n (g_nodes g) -> exec n s1 ins = exec n s2 ins;
+    wf_outs : forall n s ins outs dec, In n (g_nodes g) -> map fst ins = n_inputs n -> exec n s ins = OOk outs dec ->
                 map fst outs = n_outputs n /\ dec = None;
-    wf_nopause : forall n s ins p, exec n s ins <> OPause p }.
+    wf_nopause : forall n s ins p, In n (g_nodes g) -> exec n s ins <> OPause p }.
 
   Hypothesis Hwf : WF.
 
@@ -69,8 +77,8 @@ Section C01.
     { assert (G : forall l, (forall m, In m l -> In m (g_nodes g)) ->
                   List.filter (fun m => is_gate m && pos_in (n_name n) (gate_targets m)) l = []).
       { induction l as [|a l IH]; intros Hl; simpl; [reflexivity|].
-        destruct (wf_kinds Hwf a (Hl a (or_introl eq_refl))) as [Hk _].
-        unfold is_gate. rewrite Hk. simpl. apply IH. intros m Hm. apply Hl. right; exact Hm. }
+        destruct (wf_kinds Hwf a (Hl a (or_introl eq_refl))) as [[Hk|Hk] _];
+        unfold is_gate; rewrite Hk; simpl; apply IH; intros m Hm; apply Hl; right; exact Hm. }
       apply G. auto. }
     rewrite E. reflexivity.
   Qed.
@@ -172,7 +180,7 @@ Section C01.
     - destruct (sol_nodes V1 S1 n Hn Ea) as (i1 & o1 & C1 & E1 & W1).
       destruct (sol_nodes V2 S2 n Hn (eq_sym Hav)) as (i2 & o2 & C2 & E2 & W2).
       rewrite Hcol, C2 in C1. injection C1 as <-. rewrite E2 in E1. injection E1 as <-.
-      destruct (wf_outs Hwf n empty_state i2 o2 None Hn E2) as [Hkeys _].
+      destruct (wf_outs Hwf n empty_state i2 o2 None Hn (collect_keys _ _ _ _ _ _ C2) E2) as [Hkeys _].
       rewrite <- Hkeys in Ho. apply in_map_iff in Ho as ([o' v] & <- & Hov). simpl.
       rewrite (W1 _ _ Hov), (W2 _ _ Hov). reflexivity.
     - (* the node is not evaluable in either solution: its outputs are absent from both *)
@@ -275,8 +283,8 @@ Section C01Run.
   Proof.
     intros Hn (ins & outs & dec & H). exists ins, outs.
     assert (dec = None).
-    { unfold run_one in H. destruct (collect_inputs g snap pv n (n_inputs n)) as [i|]; [|discriminate].
-      injection H as -> H. eapply (wf_outs _ _ _ Hwf); eauto. }
+    { unfold run_one in H. destruct (collect_inputs g snap pv n (n_inputs n)) as [i|] eqn:Ec; [|discriminate].
+      injection H as -> H. eapply (wf_outs _ _ _ Hwf); eauto using collect_keys. }
     subst. exact H.
   Qed.
 
@@ -286,8 +294,8 @@ Section C01Run.
     map fst outs = n_outputs n.
   Proof.
     intros Hn H. unfold run_one in H.
-    destruct (collect_inputs g snap pv n (n_inputs n)) as [i|]; [|discriminate].
-    injection H as -> H. repeat split; auto. eapply (wf_outs _ _ _ Hwf); eauto.
+    destruct (collect_inputs g snap pv n (n_inputs n)) as [i|] eqn:Ec; [|discriminate].
+    injection H as -> H. repeat split; auto. eapply (wf_outs _ _ _ Hwf); eauto using collect_keys.
   Qed.
 
   Lemma outputs_nodup n : In n (g_nodes g) -> List.NoDup (n_outputs n).
@@ -437,7 +445,7 @@ Section C01Run.
         split; [exact Hc|]. split; [exact He|]. split; [reflexivity|].
         intros o v Hov. rewrite fold_other; [apply Hv; exact Hov|].
           intros m Hm. destruct (Hall m Hm) as [Hmg Hokm]. repeat split; auto.
-          intros Hom. destruct (wf_outs _ _ _ Hwf n s ins outs None Hn He) as [Hk _].
+          intros Hom. destruct (wf_outs _ _ _ Hwf n s ins outs None Hn (collect_keys _ _ _ _ _ _ Hc) He) as [Hk _].
           assert (Hon : In o (n_outputs n)) by (rewrite <- Hk; eapply in_dkeys; eauto).
           assert (m = n) by (eapply (output_owner exec g pv Hwf); eauto). subst m.
           apply Hi. apply in_map; exact Hm.
@@ -485,8 +493,8 @@ Section C01Final.
   Lemma no_interrupts rd : (forall n, In n rd -> In n (g_nodes g)) -> List.filter is_interrupt rd = [].
   Proof.
     induction rd as [|a rd IH]; intros H; simpl; [reflexivity|].
-    destruct (wf_kinds _ _ _ Hwf a (H a (or_introl eq_refl))) as [Hk _].
-    unfold is_interrupt at 1. rewrite Hk. apply IH. intros n Hn. apply H. right; exact Hn.
+    destruct (wf_kinds _ _ _ Hwf a (H a (or_introl eq_refl))) as [[Hk|Hk] _];
+    unfold is_interrupt at 1; rewrite Hk; apply IH; intros n Hn; apply H; right; exact Hn.
   Qed.
 
   Lemma sync_ok_all snap rd : forall acc log b calls,
@@ -556,8 +564,8 @@ Section C01Final.
       - unfold is_active. rewrite (wf_active _ _ _ Hwf). reflexivity.
       - unfold is_blocked. apply not_true_is_false. intros Hb. apply existsb_exists in Hb as ([G t] & Hgt & _).
         unfold blocked_targets in Hgt. apply in_flat_map in Hgt as (m & Hm & Hmt).
-        apply filter_In in Hm as [Hm _]. destruct (wf_kinds _ _ _ Hwf m Hm) as [Hk _].
-        unfold is_gate in Hmt. rewrite Hk in Hmt. contradiction.
+        apply filter_In in Hm as [Hm _]. destruct (wf_kinds _ _ _ Hwf m Hm) as [[Hk|Hk] _];
+        unfold is_gate in Hmt; rewrite Hk in Hmt; contradiction.
       - unfold deferred. destruct (wf_kinds _ _ _ Hwf n Hn) as [_ Hw]. rewrite Hw. reflexivity. }
     rewrite Hq in Hin. contradiction.
   Qed.
@@ -622,7 +630,7 @@ Section C01Final.
         apply negb_false_iff, Nat.eqb_eq in Hf. destruct (Hs p) as [_ Heq]. apply Heq. lia. }
       exists ins, outs. split; [|split].
       + rewrite <- Hc. apply collect_ext. intros p Hpin. simpl. symmetry. apply Hval; exact Hpin.
-      + rewrite (wf_pure _ _ _ Hwf n empty_state s ins). exact He.
+      + rewrite (wf_pure _ _ _ Hwf n empty_state s ins Hn). exact He.
       + exact Hv.
     - intros x v Hx. destruct (inv_prov _ _ _ _ HI x v Hx) as [Hp|(n & Hn & Ho & He)]; [left; exact Hp|].
       right. exists n. repeat split; auto. unfold avail. rewrite Hsame.
